@@ -18,7 +18,7 @@ import os
 import vlib
 
 QUICK_CFGS = ["Uniq_quick.cfg", "Uniq_quick2.cfg"]
-THOROUGH_CFGS = ["Uniq_thorough.cfg", "Uniq_thorough2.cfg", "Uniq_laws.cfg"]
+THOROUGH_CFGS = ["Uniq_thorough.cfg", "Uniq_thorough2.cfg", "Uniq_thorough4.cfg", "Uniq_laws.cfg"]
 
 
 def run_replay(ctx, name, cases, level, runs, procs=8, par=4, extra=(), timeout=1500):
@@ -70,12 +70,13 @@ def main(ctx):
         c["idx"] = i
     ctx.expect_vacuity("exported (bag, options) cases", len(allcases))
     ctx.extra["exported_cases"] = len(allcases)
-    pipe = ctx.tlc_model("UniqPipe", "UniqPipe_thorough.cfg" if thorough else "UniqPipe_quick.cfg", timeout=2400,
-                         deadlock_check=True)
+    pipe_states = 0
+    for cfg in (["UniqPipe_thorough.cfg", "UniqPipe_disk_thorough.cfg"] if thorough else ["UniqPipe_quick.cfg", "UniqPipe_disk.cfg"]) + ["UniqPipe_live.cfg"]:
+        pipe_states += ctx.tlc_model("UniqPipe", cfg, timeout=2400, deadlock_check=True).distinct
     neg = ctx.tlc("UniqPipe", "UniqPipe_aswritten.cfg", timeout=600, count=False, deadlock_check=True)
     if "ReadAfterClose" not in neg.invariant_violated:
         raise vlib.Inconclusive("negative test: the as-written pipeline model should violate ReadAfterClose")
-    ctx.extra["pipeline_model_states"] = pipe.distinct
+    ctx.extra["pipeline_model_states"] = pipe_states
 
     # R ---------------------------------------------------------------------------------------
     shapes = {}
@@ -85,16 +86,16 @@ def main(ctx):
         ctx.expect_vacuity("model bags of shape " + need, len(shapes.get(need, [])))
     if thorough:
         lib_cases = allcases
-        runs = 4
+        runs, diskevery = 4, 16
     else:
         # a seeded sample, every shape class x option set represented
         by = {}
         for c in allcases:
             by.setdefault((shape_of(c), tuple(c["opt"]), len(c["in"])), []).append(c)
-        lib_cases = [c for k in sorted(by) for c in vlib.sample(ctx.rng, by[k], 40)]
-        runs = 6
+        lib_cases = [c for k in sorted(by) for c in vlib.sample(ctx.rng, by[k], 30)]
+        runs, diskevery = 6, 6
     ctx.rng.shuffle(lib_cases)
-    summ = run_replay(ctx, "lib", lib_cases, "lib", runs, procs=8, par=4)
+    summ = run_replay(ctx, "lib", lib_cases, "lib", runs, procs=8, par=4, extra=["diskevery=%d" % diskevery])
     ctx.extra["library_cases"] = len(lib_cases)
     multi = [c for c in allcases if len(c["in"]) >= 2]
     bin_cases = vlib.sample(ctx.rng, multi, 1500 if thorough else 160)
@@ -111,7 +112,7 @@ def main(ctx):
 
     # T ---------------------------------------------------------------------------------------
     trace = ctx.path("trace.ndjson")
-    n = 240 if thorough else 30
+    n = 240 if thorough else 21
     ctx.harness(["record", "C06", "--out", trace, "--n", n, "--opt", "nbin=%d" % (n // 3), "--opt", "size=1000",
                  "--opt", "bindir=" + os.path.join(ctx.scratch, "bin"), "--opt", "distbatch=%d" % [7, 50, 2000][ctx.seed % 3]],
                 timeout=1500)
